@@ -1,9 +1,10 @@
 """C10 — stream.Pipe: FIFO per sender, nothing sent-before-close lost, no stuck call."""
 import vlib
+from scale_common import ScaleSpec
 from pipe_common import PipeSpec
 
 PROP_FILES = ["C10"]
-SPECS = {"pipe": (PipeSpec(), "harness_pipe", "runner-pipe")}
+SPECS = {"scale": (ScaleSpec(['pipe']), "harness", "runner"), "pipe": (PipeSpec(), "harness_pipe", "runner-pipe")}
 
 
 def run(ctx):
@@ -13,6 +14,9 @@ def run(ctx):
         ctx.violation("harness-build", "the harness does not build against the current tree: " + out[-1500:], {"build_output": out[-4000:]}, failing_input=False)
         return ctx.finish()
     vlib.seq_differential(ctx, PipeSpec(), exe, proofs_ok, tag="pipe")
+    okS, outS, exeS = vlib.build_runner()
+    if okS:
+        vlib.seq_differential(ctx, ScaleSpec(['pipe']), exeS, proofs_ok, tag="scale")
     vlib.merge_parts(ctx, "cases = controller scripts (1-4 sender goroutines with scripted Send/TrySend/Close calls released by tokens, Next calls one at a time, "
                      "receiver Close, context cancellation, quiescence points) run against the real stream.Pipe with buffer sizes 0, 1, 2, 8; "
                      "each recorded history must be accepted by the LTS model Conc/Pipe.v (some schedule and some choice of ready select arms produces it, and every "
